@@ -137,19 +137,49 @@ def r2_rejections(ctx, f, rep):
                 q.derives_from(p, nrm[1], lambda c: c['decl'] == 'bytes::Buf::remaining') and \
                 not any(c['decl'].startswith('codec::') for c in p.calls())
             rep.check(good, 'C17-R2', hd.nname, 'oversized input is refused before decoding anything', construct='too-big-first')
-    # updates_buf is scratch: cleared before it is filled/taken
-    n = 0
+    # framing that is malformed right after the header is refused *before* anything happens: a single trailing byte, and
+    # an Announce carrying anything at all.  (a) both refusals exist, (b) no path gets to its first effect without having
+    # established that what follows the header is not exactly one byte
+    causes = set()
+    n_first = 0
     for p in ctx.paths(f, hd, 'none'):
-        for i, e in enumerate(p.events):
-            uses = (e['kind'] == 'write' and e['place'] == q.self_field('updates_buf') and e.get('via') == 'mem::take') or \
-                   (e['kind'] == 'call' and e['res'] == 'alloc::vec::Vec::push' and e['args'][0] == ('ref', q.self_field('updates_buf'), True))
-            if uses:
-                n += 1
-                cl = [x for x in p.events[:i] if x['kind'] == 'call' and x['res'] == 'alloc::vec::Vec::clear'
-                      and x['args'][0] == ('ref', q.self_field('updates_buf'), True)]
-                rep.check(bool(cl), 'C17-R2', hd.nname, 'updates_buf is cleared before being filled or taken in the same call',
-                          site=e['span'], construct='scratch-cleared')
-    rep.floor('C17-R2', n, 2, 'uses of updates_buf')
+        calls = {c['id']: c for c in p.calls()}
+        dec = [i for i, e in enumerate(p.events) if e['kind'] == 'call' and e['decl'] == 'codec::Codec::decode_header']
+        if not dec:
+            continue
+        is_rem = lambda v: v[0] == 'call' and v[1] in calls and calls[v[1]]['decl'] == 'bytes::Buf::remaining' and \
+            [k for k, x in enumerate(p.events) if x['kind'] == 'call' and x['id'] == v[1]][0] > dec[0]
+
+        def one_byte(c):
+            e, t = q.norm_bool(c)
+            es = q.eq_sides(e)
+            if not es or t is None:
+                return None
+            a, b = es[1], es[2]
+            if q.is_const(a, 1) and is_rem(b):
+                a, b = b, a
+            if not (is_rem(a) and q.is_const(b, 1)):
+                return None
+            return t == es[0]
+        if classify_handle_data_exit(f, p) == 'malformed-after-header':
+            cs = p.conds()
+            if cs and one_byte(cs[-1]) is True:
+                causes.add('one-trailing-byte')
+            elif any(q.zero_test(c, is_rem) == 'pos' for c in cs[-2:]):
+                causes.add('announce-with-payload')
+        firsts = [i for i, e in enumerate(p.events) if effect_of(e)]
+        if firsts:
+            n_first += 1
+            okc = any(one_byte(c) is False for c in q.conds_before(p, firsts[0]))
+            rep.check(okc, 'C17-R2', hd.nname, 'a datagram with exactly one byte after its header is refused before the first '
+                      'effect', site=p.events[firsts[0]].get('span'), construct='one-byte-framing-first')
+    rep.check(causes == {'one-trailing-byte', 'announce-with-payload'}, 'C17-R2', hd.nname, 'both malformed-framing refusals '
+              '(one trailing byte; an Announce with a payload) are made right after the header', construct='framing-causes',
+              facts={'seen': sorted(causes)})
+    rep.floor('C17-R2', n_first, 10, 'handle_data paths with an effect')
+    # updates_buf is scratch: cleared before it is filled/taken
+    from . import common as _cm
+    _cm.scratch_cleared(ctx, f, rep, 'C17-R2')
     # nothing before the accept_payload decision has an effect either (validation precedes the first state change)
     n = 0
     for p in ctx.paths(f, hd, 'none'):
